@@ -274,6 +274,10 @@ def _equality_connect(is_sparse: bool, newton: bool):
     # error is difference in global positions
     pos = pos1 - pos2
 
+    # bodies named by the equality (the sparse path below switches body1/body2 to their weld parents)
+    invweight_body1 = body1
+    invweight_body2 = body2
+
     # compute Jacobian difference (opposite of contact: 0 - 1)
     Jqvel = wp.vec3f(0.0, 0.0, 0.0)
     Jdotv = wp.vec3f(0.0, 0.0, 0.0)
@@ -472,7 +476,7 @@ def _equality_connect(is_sparse: bool, newton: bool):
         Jdotv += j1mj2_dot * qvel
 
     body_invweight0_id = worldid % body_invweight0.shape[0]
-    invweight = body_invweight0[body_invweight0_id, body1][0] + body_invweight0[body_invweight0_id, body2][0]
+    invweight = body_invweight0[body_invweight0_id, invweight_body1][0] + body_invweight0[body_invweight0_id, invweight_body2][0]
     pos_imp = wp.length(pos)
 
     solref = eq_solref[worldid % eq_solref.shape[0], eqid]
@@ -1131,6 +1135,10 @@ def _equality_weld(is_sparse: bool, newton: bool):
       negqdot1 = math.quat_inv(qdot1)
       negq1 = wp.quat(q1_non_site[0], -q1_non_site[1], -q1_non_site[2], -q1_non_site[3])
 
+    # bodies named by the equality (the sparse path below switches body1/body2 to their weld parents)
+    invweight_body1 = body1
+    invweight_body2 = body2
+
     # compute Jacobian difference (opposite of contact: 0 - 1)
     Jqvelp = wp.vec3f(0.0, 0.0, 0.0)
     Jqvelr = wp.vec3f(0.0, 0.0, 0.0)
@@ -1371,7 +1379,7 @@ def _equality_weld(is_sparse: bool, newton: bool):
     crot = wp.vec3(crotq[1], crotq[2], crotq[3]) * torquescale
 
     body_invweight0_id = worldid % body_invweight0.shape[0]
-    invweight_t = body_invweight0[body_invweight0_id, body1][0] + body_invweight0[body_invweight0_id, body2][0]
+    invweight_t = body_invweight0[body_invweight0_id, invweight_body1][0] + body_invweight0[body_invweight0_id, invweight_body2][0]
 
     pos_imp = wp.sqrt(wp.length_sq(cpos) + wp.length_sq(crot))
 
@@ -1424,7 +1432,7 @@ def _equality_weld(is_sparse: bool, newton: bool):
 
       efc_aref_out[worldid, efcid + i] -= Jdotv_p[i]
 
-    invweight_r = body_invweight0[body_invweight0_id, body1][1] + body_invweight0[body_invweight0_id, body2][1]
+    invweight_r = body_invweight0[body_invweight0_id, invweight_body1][1] + body_invweight0[body_invweight0_id, invweight_body2][1]
 
     for i in range(3):
       _efc_row(
